@@ -1,8 +1,41 @@
-import Gen.Dataframe
-import GeffProofs.Dataframe
-open Geff.Dataframe Geff.PyDoDf Gen.Dataframe
+import GeffProofs.DataframeGen
+open Geff.Dataframe Geff.PyDoDf GeffProofs.DataframeGen
 set_option pp.proofs false
-example {α} (g : InMemGeff α) : geffToDataframes g = .valueError := by
-  unfold geffToDataframes
-  trace_state
+example {α} (g : InMemGeff α) : Gen.Dataframe.geffToDataframes g = Res.valueError := by
+  unfold Gen.Dataframe.geffToDataframes
+  simp only [readToMemory, bind_ok, List.forIn_cons, List.forIn_nil, pairCol]
+  simp only [show ("node" == "node") = true from by decide, show ("edge" == "node") = false from by decide, if_true, ite_false, Bool.false_eq_true, bind_ok]
+  rw [props_loop "node"]
+  rotate_left
+  · intro p ws d
+    simp only [reshape_squeeze, bind_ok]
+    unfold stepSpec addProp
+    obtain ⟨name, trail, rows, missing⟩ := p
+    simp only [propMissing]
+    rcases hsq : squeezeTrail trail with _ | ⟨k, _ | ⟨k2, rest⟩⟩
+    · simp only [pdSeries]
+      cases hc : colAt 0 rows with
+      | none => simp
+      | some col =>
+        cases missing with
+        | none => simp [mkSeries, anyOpt]
+        | some m =>
+          by_cases hany : m.any id = true <;> by_cases hlen : m.length = col.length <;>
+            simp [mkSeries, anyOpt, seriesMask, maskSeries_map_val, hany, hlen]
+    · simp only [shapeAt, List.range_eq_range']
+      simp
+      rw [cols_loop ⟨name, trail, rows, missing⟩]
+      · cases addCols2 ⟨name, trail, rows, missing⟩ 0 k d <;> simp [lift]
+      · intro i d
+        unfold colStep
+        simp only [sliceCol, pdSeries1]
+        cases hc : colAt i rows with
+        | none => simp
+        | some col =>
+          cases missing with
+          | none => simp [mkSeries, anyOpt, subName]
+          | some m =>
+            by_cases hany : m.any id = true <;> by_cases hlen : m.length = col.length <;>
+              simp [mkSeries, anyOpt, seriesMask, maskSeries_map_val, hany, hlen, subName]
+    · simp [renderWarn]
   sorry
